@@ -6,7 +6,9 @@ TLC:    exhaustive check of the bounded instance (blueprints x exogenous forms x
         behaviour (= one configuration and its outcome) is emitted
 replay: every configuration is rendered as an equation block and run on the real
         sfc_models.equation_solver.EquationSolver (MaxTime as a line of the block, or set on the
-        solver before ParseString, or absent, or - "late" - a different value assigned to
+        solver before ParseString, or both with different values (the solver's value wins, 0
+        included; through the model: model.MaxTime and model.EquationSolver.MaxTime), or absent,
+        or - "late" - a different value assigned to
         solver.MaxTime after EquationSolver(<block>) / after ParseString(<block>), which must have
         no effect on the solve); a seeded sample is also run
           * with seeded random float values in place of the small integers ("float dress"),
@@ -53,7 +55,12 @@ def horizon_of(cfg):
 
 
 def in_block(cfg):
-    return cfg['where'] == 'block' or cfg['where'] in LATE
+    return cfg['where'] in ('block', 'both') or cfg['where'] in LATE
+
+
+def block_maxtime(cfg):
+    """value of the MaxTime line; with 'both' it differs from the value set on the solver, which must win"""
+    return cfg['bmax'] if cfg['where'] == 'both' else cfg['horizon']
 
 
 def _rand_float(rng):
@@ -150,7 +157,7 @@ def ic_text(cfg, sup, name):
 
 
 def render_block(cfg, sup):
-    h = cfg['horizon']
+    h = block_maxtime(cfg)
     lines = []
     maxtime = 'MaxTime = %d' % h
     top = in_block(cfg) and h % 2 == 1
@@ -268,6 +275,8 @@ def execute_block(cfg, dress, fseed):
     if cfg['where'] in LATE:
         text_shown = text + '\n>>> after %s: solver.MaxTime = %d' % (
             'EquationSolver(block)' if cfg['where'] == 'late_ctor' else 'ParseString(block)', cfg['late'])
+    elif cfg['where'] in ('solver', 'both'):
+        text_shown = '>>> before ParseString(block): solver.MaxTime = %d\n' % cfg['horizon'] + text
     else:
         text_shown = text
     pe = {'ev': 'Parse', 'cfg': cfg, 'api': 'block', 'dress': dress, 'ok': True, 'exc': '',
@@ -277,7 +286,7 @@ def execute_block(cfg, dress, fseed):
             solver = EquationSolver(text, run_equation_reduction=bool(cfg['reduce']))
         else:
             solver = EquationSolver(run_equation_reduction=bool(cfg['reduce']))
-            if cfg['where'] == 'solver':
+            if cfg['where'] in ('solver', 'both'):
                 solver.MaxTime = cfg['horizon']
             solver.ParseString(text)
         solver.ParameterSolveInitialSteadyState = False
@@ -347,7 +356,11 @@ def execute_model(cfg, dress, fseed):
             else:
                 mod.AddInitialCondition('S', ic['name'], val)
                 calls.append('Model.AddInitialCondition(S, %s, %r)' % (ic['name'], val))
-        mod.MaxTime = cfg['horizon']
+        mod.MaxTime = block_maxtime(cfg)
+        calls.append('model.MaxTime = %d' % block_maxtime(cfg))
+        if cfg['where'] == 'both':
+            mod.EquationSolver.MaxTime = cfg['horizon']       # set before main(): it wins over the MaxTime line
+            calls.append('model.EquationSolver.MaxTime = %d' % cfg['horizon'])
         mod.EquationSolver.RunEquationReduction = bool(cfg['reduce'])
         mod.EquationSolver.ParameterSolveInitialSteadyState = False
     except Exception as e:
@@ -427,7 +440,7 @@ def execute(case):
 def model_eligible(cfg):
     """MaxTime always travels in the block; scalars stay at block level; a user time axis is a global equation
     there, which AddInitialCondition (sector-bound) cannot address"""
-    return cfg['where'] == 'block' and cfg['exo']['form'] in ('list', 'tuple', 'strexpr') \
+    return cfg['where'] in ('block', 'both') and cfg['exo']['form'] in ('list', 'tuple', 'strexpr') \
         and all(ic['name'] != 't' for ic in cfg['ics'])
 
 
@@ -467,6 +480,9 @@ def signature(clause, case, events):
     h = horizon_of(cfg)
     obs = events[-1].get('obs', [])
     head = case['api'] + ':'
+    if cfg['where'] == 'both':
+        head += 'solver-maxtime-%s-vs-%s-block-line:' % (
+            'zero' if cfg['horizon'] == 0 else 'positive', 'larger' if cfg['bmax'] > cfg['horizon'] else 'smaller')
     if cfg['where'] in LATE:
         head += 'maxtime-assigned-after-parse-%s:' % ('larger' if cfg['late'] > cfg['horizon'] else 'smaller')
     if clause == 'C10_Lengths':
@@ -506,8 +522,8 @@ def make_cases(behs, seed, tier):
     cases = []
     for i, b in enumerate(behs):
         cases.append({'cfg': b['cfg'], 'api': 'block', 'dress': 'int', 'fseed': 0})
-    p_float = 0.45 if quick else 1.0
-    p_model = 0.60 if quick else 0.80
+    p_float = 0.45 if quick else 0.5
+    p_model = 0.60 if quick else 0.60
     for b in behs:
         cfg = b['cfg']
         if rng.random() < p_float:
@@ -560,7 +576,7 @@ def run(rep):
     cfgs = ['MC_Horizon_quick.cfg'] if rep.tier == 'quick' else ['MC_Horizon_quick.cfg', 'MC_Horizon_thorough.cfg']
     rep.rule = ('configurations = all initial states of the bounded Horizon instance (4 blueprints x exogenous form '
                 'and length x initial condition on none / each non-exogenous variable / all, as float, int or '
-                'undefined name x horizon x MaxTime in block / on solver before parsing / absent / in block and a larger or smaller value assigned to the solver after EquationSolver(block) or ParseString(block) x reduction on/off), each solved by '
+                'undefined name x horizon x MaxTime in block / on solver before parsing / both with different values (solver wins, 0 included) / absent / in block and a larger or smaller value assigned to the solver after EquationSolver(block) or ParseString(block) x reduction on/off), each solved by '
                 'TLC and emitted; every one is replayed at block level with its integer values, a seeded sample again '
                 'with random float values and through the model API; distinct = distinct (configuration, api, dress, '
                 'float seed); non-trivial = horizon >= 1, or an initial condition, or a rejected input form')
